@@ -28,12 +28,19 @@ L = 6400.0
 
 
 def configs(sizes, full_nu):
+    """iso / tri (the two media named in the property): smoothing counts on
+    the diagonal (quick) or the full 3x3 (thorough); hti / vti (other mildly
+    anisotropic media, 1:2): (1,1) and (2,2) (quick) or the diagonal."""
     out = []
     for cyc in ('F', 'V', 'W'):
-        for med in ('iso', 'tri'):
+        for med in ('iso', 'tri', 'hti', 'vti'):
             for dom in ('freq', 'laplace'):
-                nus = [(a, b) for a in (1, 2, 3) for b in (1, 2, 3)] \
-                    if full_nu else [(1, 1), (2, 2), (3, 3)]
+                if med in ('iso', 'tri'):
+                    nus = [(a, b) for a in (1, 2, 3) for b in (1, 2, 3)] \
+                        if full_nu else [(1, 1), (2, 2), (3, 3)]
+                else:
+                    nus = [(1, 1), (2, 2), (3, 3)] if full_nu else \
+                        [(1, 1), (2, 2)]
                 for nu in nus:
                     out.append({'cycle': cyc, 'medium': med, 'domain': dom,
                                 'nu': nu, 'sizes': sizes})
@@ -52,6 +59,10 @@ def solve_one(c, shape):
     grid = emg3d.TensorMesh(h, origin=tuple(-hc*n/2 for n in shape))
     if c['medium'] == 'iso':
         model = emg3d.Model(grid, 1.0)
+    elif c['medium'] == 'hti':
+        model = emg3d.Model(grid, 1.0, 2.0)
+    elif c['medium'] == 'vti':
+        model = emg3d.Model(grid, 1.0, property_z=2.0)
     else:
         model = emg3d.Model(grid, 1.0, 2.0, 3.0)
     freq = 1.0 if c['domain'] == 'freq' else -1.0
@@ -130,27 +141,34 @@ def run(ctx):
                 time_cap=ctx.budget or (600 if q else 4800), chunksize=1)
     if not q:
         cs = [dict(c, sizes=SIZES_T2) for c in configs(SIZES_T2, False)
-              if c['nu'] == (2, 2)]
+              if c['nu'] == (2, 2) and c['medium'] in ('iso', 'tri')]
         ctx.explore('rates-128', FN, cs, engine='E1',
                     rule='128^3, nu=(2,2)', time_cap=1500, chunksize=1)
 
 
-def calibrate():
+def calibrate(only_missing=True):
+    """Measure on the current tree (must be known to be good) and write the
+    table; by default only entries that are not in the table yet."""
     import multiprocessing as mp
     impl.warm()
+    table = json.load(open(TABLE)) if os.path.exists(TABLE) else {}
     cs = configs(SIZES_T + SIZES_T2, True)
-    # 128^3 only for nu (2,2)
+    # 128^3 only for nu (2,2) of the media named in the property
     for c in cs:
-        if c['nu'] != (2, 2):
+        if c['nu'] != (2, 2) or c['medium'] not in ('iso', 'tri'):
             c['sizes'] = SIZES_T
+    if only_missing:
+        cs = [c for c in cs if key(c) not in table]
     with mp.get_context('fork').Pool(14) as pool:
         res = pool.map(measure, cs, chunksize=1)
-    table = {key(c): r for c, r in zip(cs, res)}
+    table.update({key(c): r for c, r in zip(cs, res)})
     with open(TABLE, 'w') as f:
         json.dump(table, f, indent=1, sort_keys=True)
-    print('written', TABLE, len(table))
+    print('written', TABLE, len(table), 'measured', len(cs))
 
 
 if __name__ == '__main__':
     if sys.argv[1:] == ['calibrate']:
         calibrate()
+    elif sys.argv[1:] == ['calibrate', 'all']:
+        calibrate(False)
